@@ -915,3 +915,37 @@ func TestC10Crash(t *testing.T) {
 		return cc
 	})
 }
+
+// TestC08Extents — the crash / failed-call enumeration over pre-states whose head
+// (and one snapshot) consist of well over a thousand separate extents, with space
+// reclamation on: every reopen rebuilds the block map from several FIEMAP batches
+// and punches what it takes for duplicates.
+func TestC08Extents(t *testing.T) {
+	c08Run(t, "C08", "TestC08Extents", false, func(rt *rapid.T) C08Case {
+		blocks := rapid.IntRange(2300, 3000).Draw(rt, "blocks")
+		n := int64(rapid.IntRange(1030, 1140).Draw(rt, "extents"))
+		pre := Program{Blocks: blocks, MaxChain: 0}
+		pre.Ops = append(pre.Ops,
+			Op{K: "comb", Off: int64(rapid.IntRange(0, 3).Draw(rt, "o1")), N: n, Len: 2, Seed: rapid.IntRange(1, 250).Draw(rt, "s1")},
+			Op{K: "snap", Name: "u0", User: rapid.Bool().Draw(rt, "user")},
+			// the head overwrites every other block of the comb (and, shifted, some new ones)
+			Op{K: "comb", Off: int64(rapid.IntRange(0, 5).Draw(rt, "o2")), N: n, Len: int64(rapid.SampledFrom([]int{2, 4}).Draw(rt, "stride2")), Seed: rapid.IntRange(1, 250).Draw(rt, "s2")})
+		if rapid.Bool().Draw(rt, "second") {
+			pre.Ops = append(pre.Ops, Op{K: "snap", Name: "a1"}, genWrite(rt, blocks))
+		}
+		cc := C08Case{Pre: pre, Dirty: rapid.Bool().Draw(rt, "dirty"), Preload: true, Punch: true}
+		switch rapid.IntRange(0, 3).Draw(rt, "op") {
+		case 0:
+			cc.Op = Op{K: "open", On: true}
+		case 1:
+			cc.Op = Op{K: "close"}
+		case 2:
+			cc.Op = Op{K: "snap", Name: "z9", User: rapid.Bool().Draw(rt, "zuser")}
+		default:
+			cc.Op = genWrite(rt, blocks)
+		}
+		cc.Sample = rapid.SliceOfN(rapid.IntRange(0, 200), 2, 3).Draw(rt, "sample")
+		cc.Then = rapid.SampledFrom([]string{"", "close"}).Draw(rt, "then")
+		return cc
+	})
+}
